@@ -74,10 +74,9 @@ Definition check_case (c : case) : bool :=
   match c with
   | CUnit t a la s ob mo => obs_ok (vmatch t a la s) ob mo
   | CTail cfg t l ann r calls =>
-      match tail cfg t l ann with
-      | Some (mr, mc) => tres_eqb mr r && list_eqb2 tcall_eqb mc calls
-      | None => false
-      end
+      (* equality when the comparator's verdict is definite; otherwise the
+         observation must be one of the outcomes some key order produces *)
+      existsb (fun m => tres_eqb (fst m) r && list_eqb2 tcall_eqb (snd m) calls) (tail_all cfg t l ann)
   end.
 
 (* statistics only: is the model verdict definite on this case? *)
